@@ -93,7 +93,7 @@ Section Sequence.
           inversion Hin; subst k x. split; [exact Hp|]. apply (I2 p Hp). apply ps_dcontains_false_not_in. exact HC1.
       + intros p' Hp' Hno. destruct (ps_key_eqb p' p) eqn:E.
         * apply ps_key_eqb_eq in E. subst p'.
-          destruct HE as [HE|HE]; [rewrite (ps_no_entry_dcontains p _ Hno) in HE; discriminate|].
+          destruct ok; [rewrite (ps_no_entry_dcontains p _ Hno) in HE; discriminate|].
           rewrite (ps_get_attr_same_fields p o o' HE). apply (I2 p Hp).
           destruct HC as [HC|[_ HC2]]; [rewrite <- HC; exact Hno|].
           exfalso. apply (Hno (ps_get_attr p o)). rewrite HC2. apply ps_in_dset_self.
